@@ -464,6 +464,19 @@ pub fn space(thorough: bool) -> Vec<Prog> {
             }
         }
     }
+    // large binding indices (byte, u16 and i32 boundaries): every ordered pair in one group, and spread over two groups
+    let big: [u32; 8] = [0, 255, 256, 257, 1000, 65535, 65536, 2147483647];
+    for (i, a) in big.iter().enumerate() {
+        for (j, b) in big.iter().enumerate() {
+            if a == b {
+                continue;
+            }
+            out.push(build(&[(0, *a), (0, *b)], i + j, format!("big|one-group|{a}|{b}")));
+            if i < j {
+                out.push(build(&[(1, *a), (0, *b), (1, *b)], i * 3 + j, format!("big|two-groups|{a}|{b}")));
+            }
+        }
+    }
     // rarely used resource types next to ordinary ones: in the middle of a group, alone in the last group, alone in a
     // middle group
     for rare in [Kind::AtomicArray, Kind::AtomicTop] {
@@ -530,7 +543,7 @@ pub fn run(tier: &str) -> i32 {
     }
     // executed subset: evenly spread, plus all programs with >= 4 groups
     let stride = if thorough { (progs.len() / 700).max(1) } else { (progs.len() / 40).max(1) };
-    let chosen: Vec<usize> = (0..progs.len()).filter(|i| i % stride == 0 || progs[*i].key.starts_with("g8") || (progs[*i].key.starts_with("twins|") && (thorough || progs[*i].key.contains("kinds=0"))) || (thorough && progs[*i].vars.iter().map(|v| v.group).max().unwrap_or(0) >= 3)).collect();
+    let chosen: Vec<usize> = (0..progs.len()).filter(|i| i % stride == 0 || progs[*i].key.starts_with("g8") || (progs[*i].key.starts_with("big|") && (thorough || *i % 5 == 0)) || (progs[*i].key.starts_with("twins|") && (thorough || progs[*i].key.contains("kinds=0"))) || (thorough && progs[*i].vars.iter().map(|v| v.group).max().unwrap_or(0) >= 3)).collect();
     let cases: Vec<ProbeCase> = chosen
         .iter()
         .filter(|i| texts[**i].is_some())
@@ -584,6 +597,6 @@ pub fn run(tier: &str) -> i32 {
     for i in [0, progs.len() / 3, progs.len() - 1] {
         rep.sample(json!({"key": progs[i].key, "wgsl": progs[i].src}));
     }
-    rep.rule = "declaration sequences (order is state): one group with every repetition-free sequence of 1..3 bindings over {0,1,2,5,9}; two groups with per-group sequences of <=2 bindings over {0,2,5} in every interleaving of declaration order; three groups likewise over {1,4}; 4..8 groups in every rotation and reversed; 2..4 groups of identical shape (and with one odd group out); resource kinds rotate (uniform/storage buffer, texture, storage texture, sampler); names chosen so that alphabetical, declaration and index order differ. Whole space through omodel; an evenly spread subset executed on the recording wgpu stand-in (each also type-checked against real wgpu 24.0.5) with tagged resources per field. traces_validated = bind group layouts whose omodel reading equals the compiled program's descriptor.".into();
+    rep.rule = "declaration sequences (order is state): one group with every repetition-free sequence of 1..3 bindings over {0,1,2,5,9}; two groups with per-group sequences of <=2 bindings over {0,2,5} in every interleaving of declaration order; three groups likewise over {1,4}; 4..8 groups in every rotation and reversed; 2..4 groups of identical shape (and with one odd group out); binding indices at the byte / u16 / i32 boundaries; resource kinds rotate (uniform/storage buffer, texture, storage texture, sampler); names chosen so that alphabetical, declaration and index order differ. Whole space through omodel; an evenly spread subset executed on the recording wgpu stand-in (each also type-checked against real wgpu 24.0.5) with tagged resources per field. traces_validated = bind group layouts whose omodel reading equals the compiled program's descriptor.".into();
     rep.finish()
 }
